@@ -204,8 +204,7 @@ def _file_rules(ctx, m) -> None:
                     ctx.fail("R39e", fn, c, inst, "universal-newline translation is on for this file object: a carriage return inside a "
                              "value (escaped by the writer, e.g. a Mark text `a\\rb`) is read back as a line feed, and on writing a "
                              "line end inside a value would be rewritten")
-    if n_open < 4:
-        raise AnchorError(f"only {n_open} open() calls found in archiver.py (floor 4)")
+    ctx.floor("R39e", 4)
     # R39f
     destructive = []
     tagc = prog.cls("openpectus.lang.exec.tags:Tag")
